@@ -11,7 +11,7 @@ RHO_MSG = 'rho has reached rhoend'
 
 def build(repo):
     D = RadiiDomain(repo)
-    D.ghost_shapes = {}
+    D.ghost_shapes = {'abstol': 'real', 'reltol': 'real'}
     D.predicate('INV_radii', ['c'],
                 '0 < c.rho and c.rho <= c.delta and c.rho <= c.rhobeg and 0 < c.rhoend and implies(c.rhoend <= c.rhobeg, c.rhoend <= c.rho) '
                 'and implies(isnone(c.h), c.delta <= 10000000000.0) and 1.5 * c.rhobeg <= 10000000000.0')
@@ -23,8 +23,16 @@ def build(repo):
     T = ['C18']
     D.contract('Controller.__init__', tags=T, params={'rhobeg': 'real', 'rhoend': 'real', 'h': 'opt:cb:h'},
                requires=['0 < rhoend and 0 < rhobeg', 'A-quantifier: the cap delta <= 1e10 needs 1.5*rhobeg <= 1e10:: 1.5 * rhobeg <= 10000000000.0'],
-               modifies=['self.*'],
-               ensures=['self.delta == rhobeg and self.rho == rhobeg and self.rhobeg == rhobeg and self.rhoend == rhoend', 'same_h:: isnone(self.h) == isnone(h)'] + INV_PARTS)
+               modifies=['self.*', 'G.abstol', 'G.reltol'],
+               ensures=['self.delta == rhobeg and self.rho == rhobeg and self.rhobeg == rhobeg and self.rhoend == rhoend', 'same_h:: isnone(self.h) == isnone(h)',
+                        ('(C10 a) the two tolerances of the "objective is sufficiently small" test are the documented parameters, each in its own place: the model is built with '
+                         'abs_tol = model.abs_tol and rel_tol = model.rel_tol:: G.abstol == params("model.abs_tol") and G.reltol == params("model.rel_tol")', 'C10')] + INV_PARTS)
+    D.field_shapes[('Model', 'abs_tol')] = 'real'
+    D.field_shapes[('Model', 'rel_tol')] = 'real'
+    D.field_shapes[('Model', 'objbeg')] = 'real'
+    D.contract('Model.min_objective_value', tags=['C10'], requires=[], modifies=[], result='real',
+               ensures=[('(C10 a) the threshold of the "objective is sufficiently small" test is max(abs_tol, rel_tol * f(x0)):: '
+                         'result == max(self.abs_tol, self.rel_tol * self.objbeg)', 'C10')])
     D.contract('Controller.reduce_rho', tags=['C18', 'C10'], params={'current_iter': 'int'},
                requires=['INV_radii(self)', 'rho is above the (rescaled) rhoend:: self.rho > self.rhoend',
                          'params("tr_radius.alpha1") >= 0 and params("tr_radius.alpha1") <= 1 and params("tr_radius.alpha2") >= 0 and params("tr_radius.alpha2") <= 1'],
@@ -47,7 +55,9 @@ def build(repo):
                         '0 < self.rho and self.rho <= self.delta', 'self.rho <= self.rhobeg', '0 < self.rhoend',
                         'implies(isnone(self.h), self.delta <= 10000000000.0)', '1.5 * self.rhobeg <= 10000000000.0',
                         ('rescaled rhoend <= rho (when it does not exceed rhobeg, O9):: implies(self.rhoend <= self.rhobeg, self.rhoend <= self.rho)', 'C18')])
-    D.contract('Model.__init__', tags=T, modifies=['self.*'], ensures=[], assumed=True, notes='frame only: the constructor writes its own new object')
+    D.contract('Model.__init__', tags=T, params={'abs_tol': 'real', 'rel_tol': 'real'}, modifies=['self.*', 'G.abstol', 'G.reltol'],
+               ghost_return=[('G.abstol', 'abs_tol'), ('G.reltol', 'rel_tol')], ensures=['G.abstol == abs_tol and G.reltol == rel_tol'], assumed=True,
+               notes='frame, and ghost-defining: the tolerances the model is built with (that the constructor stores them in self.abs_tol / self.rel_tol is by inspection of two assignments)')
     D.contract('Controller.calculate_ratio', tags=T, modifies=['self.diffs', 'self.last_successful_iter'], result=('real', 'optexit'), ensures=[], assumed=True,
                notes='returns (ratio, exit_info); no radius is written (frame checked in the ledger bundle)')
     D.contract('solve_main', tags=['C18', 'C10'],
@@ -60,7 +70,7 @@ def build(repo):
                          'params("tr_radius.alpha1") >= 0 and params("tr_radius.alpha1") <= 1 and params("tr_radius.alpha2") >= 0 and params("tr_radius.alpha2") <= 1 '
                          'and params("restarts.rhoend_scale") >= 0',
                          'A-params sub-range (O11: 0.0 is accepted by the parameter check and makes the rescaled rhoend zero):: params("restarts.rhoend_scale") > 0'],
-               modifies=['params[growing.full_rank.use_full_rank_interp]', 'params[growing.perturb_trust_region_step]', 'params[growing.delta_scale_new_dirns]'],
+               modifies=['params[growing.full_rank.use_full_rank_interp]', 'params[growing.perturb_trust_region_step]', 'params[growing.delta_scale_new_dirns]', 'G.abstol', 'G.reltol'],
                result=None,
                ledger_inv=['INV_radii(control)', ('the local rhoend is the controller\'s rescaled rhoend:: rhoend == control.rhoend', 'C18', 'C10'),
                            'control.rhobeg == rhobeg', 'isnone(control.h) == isnone(h)'],
@@ -69,7 +79,7 @@ def build(repo):
     D.contract('solve', tags=['C18'],
                params={'rhobeg': 'opt:real', 'rhoend': 'real', 'h': 'opt:cb:h', 'npt': 'opt:int', 'maxfun': 'opt:int', 'objfun': 'cb:objfun',
                        'nsamples': 'opt:cb:nsamples', 'lh': 'opt:real', 'scaling_within_bounds': 'bool'},
-               requires=[], modifies=['params[*]'], result='unk',
+               requires=[], modifies=['params[*]', 'G.abstol', 'G.reltol'], result='unk',
                loops={'while#0': ['0 < rhoend and 0 < rhobeg', 'implies(params("growing.reset_rho"), params("growing.reset_delta"))',
                                   'parameters stay inside their ranges:: params("tr_radius.gamma_dec") >= 0 and params("tr_radius.gamma_dec") <= 1 and '
                                   'params("growing.gamma_dec") >= 0 and params("growing.gamma_dec") <= 1 and params("tr_radius.gamma_inc") >= 1 and '
@@ -77,7 +87,7 @@ def build(repo):
                                   'params("tr_radius.alpha2") >= 0 and params("tr_radius.alpha2") <= 1 and params("restarts.rhoend_scale") >= 0',
                                   'A-params sub-range (O11):: params("restarts.rhoend_scale") > 0']},
                ensures=[])
-    D.verify_list = ['solve', 'Controller.__init__', 'Controller.reduce_rho', 'Controller.check_and_fix_geometry', 'Controller.soft_restart', 'solve_main']
+    D.verify_list = ['Model.min_objective_value', 'solve', 'Controller.__init__', 'Controller.reduce_rho', 'Controller.check_and_fix_geometry', 'Controller.soft_restart', 'solve_main']
     return D
 
 
